@@ -42,17 +42,25 @@ def main():
             out += {'"': '\\"', "\n": "\\n", "\\": "\\\\"}.get(ch, ch)
         return out + '"'
 
+    def build_expr(s):
+        """Garden expression for the string s that does not depend on how a literal's LAST character is lexed or
+        unescaped: every character comes from the first position of a two-character literal."""
+        if not s:
+            return '""'
+        esc = {'"': '\\"', "\n": "\\n", "\\": "\\\\"}
+        return "(" + " ^ ".join('"%sx".substring(0, 1)' % esc.get(ch, ch) for ch in s) + ")"
+
     def replay_for(schars, cchars):
         def replay(m):
             s = L.model_string(m, schars)
             ctx_s = L.model_string(m, cchars)
-            # user-visible oracle: print the string (as a list element when there is a context) and read it back
-            lit = literal_src(s)
-            code1, out1, err1 = native.run_c(f"println(string_repr([{lit}, \"z\"]))")
+            # user-visible oracle: print the value (inside a list, so something follows the literal) and read it back
+            orig = build_expr(s)
+            code1, out1, err1 = native.run_c(f"println(string_repr([{orig}, \"z\"]))")
             printed = out1.strip()
-            code2, out2, err2 = native.run_c(f"let v = {printed}\nprintln(string_repr(v == [{lit}, \"z\"]))")
+            code2, out2, err2 = native.run_c(f"let v = {printed}\nprintln(string_repr(v == [{orig}, \"z\"]))")
             okv = code1 == 0 and code2 == 0 and out2.strip() == "True"
-            return {"reproduced": not okv, "artefact": {"string": s, "printed": printed, "context": ctx_s},
+            return {"reproduced": not okv, "artefact": {"string": s, "built_as": orig, "printed": printed, "context": ctx_s},
                     "detail": f"printed={printed!r} reread-equal={out2.strip()!r} {err2[:120]!r}"}
         return replay
 
